@@ -6,7 +6,7 @@ ID = "C11"
 THEOREMS = "Properties/C11.v"
 HARNESS = ["c11"]
 LEVEL = "proof"
-READY = False
+READY = True
 TRUSTED_BASE = [
     "Coq 8.16.1 kernel (coqc, full .vo build); vm_compute in the non-vacuity examples and the correspondence evaluation",
     "no axioms: Print Assumptions reports 'Closed under the global context' for every theorem of Properties/C11.v",
@@ -24,8 +24,9 @@ ASSUMPTIONS = [
     "atomicity: the unlocked reads of res.version in rollback/broadcastAbortOrCommit/Commit are modelled as part of the "
     "neighbouring critical section (a data race window of a few instructions in twopc.go is not modelled)",
     "application contract of distsys.MPCalContext: Read/Write only outside PreCommit/Commit, Commit only after PreCommit returned nil",
-    "contenders_progress is proved from released states (no operation in flight, no accepted pre-commit held); that aborted "
-    "proposals reach such a state is abort_releases plus the implementation-side epilogue check, not one theorem",
+    "contenders_progress is proved from released states (no operation in flight, no accepted pre-commit held at any replica) for "
+    "a proposer at the highest version and any reachable majority; that aborted proposals reach such a state is abort_releases "
+    "(per replica) plus the implementation-side epilogue check, not one theorem; a pre-commit held for a crashed proposer blocks (2PC)",
 ]
 RULE = ("cases = schedules for the driver-controlled network from one PRNG (VERIF_SEED): 2-7 replicas, 1-4 writers, 20-60 random "
         "events picked among the enabled ones (application call / first delivery / answer / duplicate delivery / answer with an "
@@ -139,7 +140,7 @@ def run(ctx):
             for t in (["local", "ref", "gob"] if "transport" not in c else [c["transport"]]):
                 cc = dict(c); cc["transport"] = t
                 cases.append(cc)
-        nsched = 90 if tier == "quick" else 2500
+        nsched = 70 if tier == "quick" else 2000
         for i in range(nsched):
             sch = gen_schedule(rng, tier)
             ts = ["local", "gob"] + (["ref"] if i % 10 == 0 else [])
